@@ -25,7 +25,19 @@ def delayProbOfJson (j : Json) : Option DelayProb := do
   let out ← getNat j "out"
   let outNeg ← getBool j "outNeg"
   let tau ← (getObj j "tau").bind exprOfJson
-  pure ⟨mp, hists, allHistTimes, expr, out, outNeg, tau⟩
+  let d : DelayProb := ⟨mp, hists, allHistTimes, expr, out, outNeg, tau⟩
+  -- the receiving variable given by NAME: resolved here through the alias relation (`DelayProb.named`)
+  match getStr j "outName" with
+  | none => pure d
+  | some name =>
+      let names ← getStrList j "colNames"
+      let al ← getArr j "aliases"
+      let aliases ← al.mapM (fun a => do
+        let n ← getStr a "name"
+        let c ← getStr a "of"
+        let neg ← getBool a "neg"
+        pure (n, (c, neg)))
+      pure (d.named aliases names name)
 
 def handle (j : Json) : Option Json := do
   let op ← getStr j "op"
@@ -37,6 +49,8 @@ def handle (j : Json) : Option Json := do
         ("incomplete", Json.bool d.incomplete),
         ("nominal", ratJ d.nominal),
         ("histStart", Json.num d.histStart),
+        ("out", Json.num (Int.ofNat d.out)),
+        ("outNeg", Json.bool d.outNeg),
         ("hts", ratsJ d.hts),
         ("histD", Json.arr (d.histD.map resJ).toArray),
         ("trajD", Json.arr (d.trajD.map resJ).toArray),
